@@ -196,6 +196,8 @@ impl ReaderGroup {
                 // If a reader has passed the writer during this function call
                 // then what must have happened is that somebody else has completed this
                 // written to the queue, and a reader has bypassed it. We should retry
+                #[cfg(feature = "multiqueue2_verif")]
+                crate::verif_hooks::touch(*reader_ptr);
                 let rpos = (**reader_ptr).pos_data.load_count(MAYBE_ACQUIRE);
                 let (diff, tofar) = past(cur_writer, rpos);
                 if tofar {
@@ -229,6 +231,8 @@ impl ReadCursor {
         loop {
             unsafe {
                 let first_ptr = self.readers.load(CONSUME);
+                #[cfg(feature = "multiqueue2_verif")]
+                crate::verif_hooks::touch(first_ptr);
                 let rg = &*first_ptr;
                 let rval = rg.get_max_diff(cur_writer);
                 // This check ensures that the pointer hasn't changed
@@ -257,7 +261,11 @@ impl ReadCursor {
         let mut current_ptr = self.readers.load(CONSUME);
         loop {
             unsafe {
+                #[cfg(feature = "multiqueue2_verif")]
+                crate::verif_hooks::touch(current_ptr);
                 let current_group = &*current_ptr;
+                #[cfg(feature = "multiqueue2_verif")]
+                crate::verif_hooks::touch(reader.pos);
                 let raw = (*reader.pos).pos_data.load_raw(Ordering::Relaxed);
                 let wrap = (*reader.pos).pos_data.wrap_at();
                 let (new_group, new_reader) = current_group.add_stream(raw, wrap);
@@ -290,6 +298,8 @@ impl ReadCursor {
         let mut current_group = self.readers.load(CONSUME);
         loop {
             unsafe {
+                #[cfg(feature = "multiqueue2_verif")]
+                crate::verif_hooks::touch(current_group);
                 let new_group = (*current_group).remove_reader(reader.pos);
                 match self.readers.compare_exchange(
                     current_group,
@@ -320,6 +330,8 @@ impl ReadCursor {
     pub fn has_readers(&self) -> bool {
         unsafe {
             let current_group = &*self.readers.load(CONSUME);
+            #[cfg(feature = "multiqueue2_verif")]
+            crate::verif_hooks::touch(current_group as *const ReaderGroup);
             current_group.readers.is_empty()
         }
     }
